@@ -504,6 +504,9 @@ func genLabel(t *rapid.T) string {
 var hostileTexts = []string{"\t", "x\t", "\tx", "beta \t", " ", "  ", "x ", " x", "\n", "x\n", "\nx", "\r\n", "x\v", "x\f", "a  b", "a\t\tb", "\u00a0", "x\u00a0", "\u2003x",
 	"(", ")", "( x )", "((", "\"", "'", "x\"", "\x00", "x\x00", "\xff", "x\xff\xfe", "\u200b", strings.Repeat("long ", 300) + "\t"}
 
+// nearLabels: junk that is one step away from a label (one bit, one blank, one letter, another script): none of them is a label.
+var nearLabels = []string{"\xc1ND", "a\xeed", "O\xd2", "\xeeo\xf4", "l\xc9st", "\xc3ONDITION", "condi\xf4ion", "AND ", " AND", "AN", "ANDS", "A ND", "ＡＮＤ", "ÁND", "ОR", "and\x00", "\x00OR", "NOT\t", "CONDITION\n"}
+
 func genScalar(t *rapid.T, hostile bool) MIn {
 	k := rapid.SampledFrom([]string{"junk", "junk", "int", "float", "bool", "nil", "op", "userop", "label"}).Draw(t, "scalar")
 	if hostile && rapid.IntRange(0, 2).Draw(t, "hostile?") == 0 {
@@ -515,6 +518,9 @@ func genScalar(t *rapid.T, hostile bool) MIn {
 		m.S = rapid.SampledFrom([]string{"foo", "x", "", "and then", "é", "cond"}).Draw(t, "junk")
 		if rapid.IntRange(0, 2).Draw(t, "hostile-text?") == 0 {
 			m.S = rapid.SampledFrom(hostileTexts).Draw(t, "hostile-text")
+			if rapid.IntRange(0, 2).Draw(t, "nearlabel-text?") == 0 {
+				m.S = rapid.SampledFrom(nearLabels).Draw(t, "nearlabel-text")
+			}
 		}
 	case "label":
 		m.S = genLabel(t)
@@ -611,6 +617,9 @@ func genEnvelope(t *rapid.T, depth int, hostile bool) MIn {
 	case shape == 16:
 		// junk first element
 		elems := []MIn{{K: "junk", S: rapid.SampledFrom([]string{"foo", "", "AND ", "whatever"}).Draw(t, "junk0")}}
+		if rapid.Bool().Draw(t, "nearlabel?") {
+			elems[0].S = rapid.SampledFrom(nearLabels).Draw(t, "nearlabel")
+		}
 		w := rapid.IntRange(0, 4).Draw(t, "width")
 		for i := 0; i < w; i++ {
 			elems = append(elems, genScalar(t, hostile))
@@ -641,7 +650,7 @@ func genEnvelope(t *rapid.T, depth int, hostile bool) MIn {
 
 func genC16(t *rapid.T, tier Tier) C16Case {
 	depth := 4
-	c := C16Case{Recv: rapid.SampledFrom([]string{"zero", "zero", "zero", "AND", "OR", "NOT", "LIST", "BASIC"}).Draw(t, "recv")}
+	c := C16Case{Recv: rapid.SampledFrom([]string{"zero", "zero", "zero", "AND", "OR", "NOT", "LIST"}).Draw(t, "recv")}
 	if c.Recv != "zero" {
 		c.RecvLen = rapid.IntRange(0, 3).Draw(t, "recvlen")
 		if rapid.IntRange(0, 2).Draw(t, "hascap") == 0 {
